@@ -1,5 +1,5 @@
 ENGINES = [
-    {"name": "E1-symreal", "path": "engine/symreal", "serves_properties": ["C01"], "kind_free_text": "symbolic execution of the unmodified formak Python on z3-backed reals (operator overloading + numpy shim, DART-style path exploration with solver pruning)"},
+    {"name": "E1-symreal", "path": "engine/symreal", "serves_properties": ["C01", "C03", "C04", "C05", "C06"], "kind_free_text": "symbolic execution of the unmodified formak Python on z3-backed reals (operator overloading + numpy shim, DART-style path exploration with solver pruning)"},
 ]
 NOTES = "Solver-based checking (z3 5.1) of the real code; see DESIGN.md. Exit codes: 0 ok, 1 violation, 2 harness error/inconclusive machinery."
 NA["C14"] = "structural accept/reject over sets/dicts of sympy objects: the only symbolic treatment is forking on every membership bit, i.e. enumeration of concrete definitions with the solver as bystander (DESIGN 11)"
@@ -9,3 +9,20 @@ chk("C01", "translation_validation",
     "For each corpus program and both CSE settings the real python.compile(...).model is executed on symbolic reals; every output slot is proved equal (z3 unsat of the negation) to the user's update expression for ALL real inputs; CSE on == CSE off likewise. Bounded in the program dimension only (stated corpus + seeded random grammar members).",
     "Trusts z3, reals-for-doubles, UF abstraction of sin/cos/exp/sqrt with sound axioms, the numpy shim and the corpus renderers (validated at concrete points on every run).",
     "symbolic execution of the real Python + SMT equivalence (z3, QF_UFNRA)", "E1-symreal", "5/C01")
+
+chk("C03", "translation_validation",
+    "Every entry of the real filter's process / control / sensor Jacobian, executed on symbolic reals, is proved equal for ALL evaluation points to the partial derivative computed by the harness's own differentiator at the row/column derived from sorted names; rectangular cases (readings != states, calibration present, controls > states) are in the corpus.",
+    "Trusts z3, the harness differentiator (validated by central differences each run), UF abstraction with derivative rules, gates assumed.",
+    "symbolic execution of the real Python + SMT equivalence against an independent differentiator", "E1-symreal", "5/C03")
+chk("C04", "translation_validation",
+    "process_model on symbolic dt/state/P/control/calibration/noise: state == f and every covariance entry == (G P G^T + V M V^T)[i][j] for all reals (all symmetric P), inputs term-identical after the call, second call term-identical. Program dimension bounded by the corpus.",
+    "Validity gates are assumptions here (C09 covers them); witnesses restricted to diagonally dominant P so that replay passes the gates.",
+    "symbolic execution of the real Python + SMT equivalence (z3)", "E1-symreal", "5/C04")
+chk("C05", "translation_validation",
+    "sensor_model on symbolic inputs with the matrix inverse as a shared cut-point: recorded S, recorded innovation, inverse argument, returned state and covariance are proved equal to the Kalman correction formulas for all inputs and all symmetric P, for sensors with 1..3 readings, with and without calibration, filter off and on (accept path); consequences (z=h(x) => unchanged, symmetric posterior, posterior <= prior for m=1) as separate validity queries.",
+    "np.linalg.inv treated as an uninterpreted function of its argument (argument proved equal to S); gates assumed; posterior<=prior by nlsat only for m=1.",
+    "symbolic execution of the real Python + SMT equivalence with inverse cut-point", "E1-symreal", "5/C05")
+chk("C06", "translation_validation",
+    "Decision equivalence as validity queries: remove_innovation's returned condition, and the reject-leaf path condition of sensor_model, are equivalent to z'S^-1 z > k*sqrt(2m)+m for all k>0, z, S^-1 (m=1..3, thorough up to 8); reject returns the input objects with unchanged terms and records z-h; disabled filtering has no reject path. C++ side joins when E2 is built.",
+    "sqrt(2m) is the exact rational of the double the code computes; everything else over reals.",
+    "symbolic execution (path conditions) + SMT validity of decision equivalence", "E1-symreal", "5/C06")
